@@ -60,7 +60,25 @@ var (
 	c10U    = []byte("unrelated, must stay\n")
 )
 
-var c10targets = map[string][]byte{"d/a": c10A, "b": c10B, "e": c10E, "big": c10Big}
+// Plan-shape leg (PX1/PX2): file->file changes in which the content, the
+// executable bit, both, or neither-but-the-path's-source change.
+var (
+	c10S0 = []byte("#!/bin/sh\necho script s, old\n")
+	c10S1 = []byte("#!/bin/sh\necho script s, edited and made executable\n")
+	c10T0 = []byte("#!/bin/sh\necho script t, old, executable\n")
+	c10T1 = []byte("script t is now plain data\n")
+	c10M0 = []byte("m keeps its bytes, gains the bit\n")
+	c10N0 = []byte("n keeps its bytes, loses the bit\n")
+	c10K0 = []byte("k, to be replaced by the bytes of u\n")
+)
+
+var c10targets = map[string][]byte{"d/a": c10A, "b": c10B, "e": c10E, "big": c10Big, "s": c10S1, "t": c10T1, "k": c10U}
+
+func execEntry(content []byte, executable bool) *core.Entry {
+	e := fileEntry(content)
+	e.Executable = executable
+	return e
+}
 
 func c10plan(order string) []*core.Change {
 	chA := &core.Change{Path: "d", New: dirEntry(map[string]*core.Entry{"a": fileEntry(c10A)})}
@@ -74,6 +92,16 @@ func c10plan(order string) []*core.Change {
 		return []*core.Change{chBig, chE, chB, chA}
 	case "P3":
 		return []*core.Change{chB, chA, chBig, chE}
+	case "PX1", "PX2":
+		chS := &core.Change{Path: "s", Old: execEntry(c10S0, false), New: execEntry(c10S1, true)} // content AND bit
+		chT := &core.Change{Path: "t", Old: execEntry(c10T0, true), New: execEntry(c10T1, false)} // content AND bit (off)
+		chM := &core.Change{Path: "m", Old: execEntry(c10M0, false), New: execEntry(c10M0, true)} // bit only
+		chN := &core.Change{Path: "n", Old: execEntry(c10N0, true), New: execEntry(c10N0, false)} // bit only (off)
+		chK := &core.Change{Path: "k", Old: execEntry(c10K0, false), New: execEntry(c10U, false)} // content that another root file (u) already has
+		if order == "PX1" {
+			return []*core.Change{chS, chT, chM, chN, chK, chA}
+		}
+		return []*core.Change{chA, chK, chN, chM, chT, chS}
 	case "PC": // local-copy leg: only d/a, whose content also lives in root file "c"
 		return []*core.Change{chA}
 	}
@@ -278,6 +306,49 @@ func (d *c10decoder) Finalize() error { return nil }
 
 // ---- one execution ----
 
+// c10setup creates the files the plan expects to find in the root and returns,
+// per planned file path, the planned content and (for replacements) the old one.
+func c10setup(root string, plan []*core.Change) (planned, old map[string][]byte, err error) {
+	planned, old = map[string][]byte{}, map[string][]byte{}
+	put := func(name string, content []byte, mode os.FileMode, tick int) {
+		if err != nil {
+			return
+		}
+		if err = writeFileAt(filepath.Join(root, name), content, tick); err == nil {
+			err = os.Chmod(filepath.Join(root, name), mode)
+		}
+	}
+	for _, ch := range plan {
+		switch ch.Path {
+		case "d":
+			planned["d/a"] = c10A
+		case "b":
+			planned["b"], old["b"] = c10B, c10base
+			put("b", c10base, 0o644, 2)
+		case "e":
+			planned["e"] = c10E
+		case "big":
+			planned["big"] = c10Big
+		case "s":
+			planned["s"], old["s"] = c10S1, c10S0
+			put("s", c10S0, 0o644, 2)
+		case "t":
+			planned["t"], old["t"] = c10T1, c10T0
+			put("t", c10T0, 0o755, 2)
+		case "m":
+			planned["m"] = c10M0
+			put("m", c10M0, 0o644, 2)
+		case "n":
+			planned["n"] = c10N0
+			put("n", c10N0, 0o755, 2)
+		case "k":
+			planned["k"], old["k"] = c10U, c10K0
+			put("k", c10K0, 0o644, 2)
+		}
+	}
+	return
+}
+
 type c10result struct {
 	viol       string
 	infra      string
@@ -299,23 +370,10 @@ func c10run(e *env, src string, c c10case, logfn func(string, ...any)) (res c10r
 		return
 	}
 	plan := c10plan(c.Plan)
-	planned := map[string][]byte{}
-	old := map[string][]byte{}
-	for _, ch := range plan {
-		switch ch.Path {
-		case "d":
-			planned["d/a"] = c10A
-		case "b":
-			planned["b"], old["b"] = c10B, c10base
-			if err := writeFileAt(filepath.Join(root, "b"), c10base, 2); err != nil {
-				res.infra = err.Error()
-				return
-			}
-		case "e":
-			planned["e"] = c10E
-		case "big":
-			planned["big"] = c10Big
-		}
+	planned, old, err := c10setup(root, plan)
+	if err != nil {
+		res.infra = err.Error()
+		return
 	}
 	if c.Copy != "" {
 		// A file with the digest wanted for d/a exists in the root at scan time.
@@ -560,7 +618,10 @@ func c10script(e *env, src, planName string, copyMode string) ([]*rsync.Transmis
 	dir, sid := e.caseDir()
 	defer e.dropCase(dir, sid)
 	root := filepath.Join(dir, "root")
-	if err := writeFileAt(filepath.Join(root, "b"), c10base, 2); err != nil {
+	if err := writeFileAt(filepath.Join(root, "u"), c10U, 1); err != nil {
+		return nil, err
+	}
+	if _, _, err := c10setup(root, c10plan(planName)); err != nil {
 		return nil, err
 	}
 	ep, err := newLocal(root, sid, noWatchConfig(0, 0))
@@ -608,12 +669,12 @@ func TestC10(t *testing.T) {
 		return
 	}
 
-	plans := []string{"P1", "P2", "P3"}
+	plans := []string{"P1", "P2", "P3", "PX1", "PX2"}
 	pairPlans := []string{}
 	if vr.Thorough() {
 		pairPlans = []string{"P1", "P2"}
 	}
-	r.Rule("plan of 4 changes (new directory with a small file, replacement of a 3-block file by an edited version, new empty file, new 150 kB file) in 3 orders; the correct rsync script for what Stage asks for (11 messages: data ops, block ops, Done) with EVERY single tamper {cut after k, decode error at k, invalid message at k, cancel at k, drop k, duplicate k, swap k/k+1, Done inserted before k, sender-side error for file ending at k, flip first/middle/last byte of data op k, shorten/lengthen data op k, data op -> block op, block op start+1/count+1/count-1/start out of range} (thorough: every ordered pair of tampers for two orders) x continuation {Transition on the same endpoint, resume on a new endpoint of the same session with a correct re-delivery}; plus MaximumStagingFileSize around the big file's size; plus the local-copy leg (a root file with the wanted digest is changed / truncated / extended / deleted / replaced by a directory between Scan and Stage) x {complete delivery, nothing delivered}; non-trivial = delivery reached the first tampered message; distinct by the whole case")
+	r.Rule("plan-shape leg PX1/PX2 (two orders): file->file changes {content AND executable bit on, content AND bit off, bit only on, bit only off, content that another root file already carries} plus a created directory with a file, same single tampers and continuations, portable permissions; main leg: plan of 4 changes (new directory with a small file, replacement of a 3-block file by an edited version, new empty file, new 150 kB file) in 3 orders; the correct rsync script for what Stage asks for (11 messages: data ops, block ops, Done) with EVERY single tamper {cut after k, decode error at k, invalid message at k, cancel at k, drop k, duplicate k, swap k/k+1, Done inserted before k, sender-side error for file ending at k, flip first/middle/last byte of data op k, shorten/lengthen data op k, data op -> block op, block op start+1/count+1/count-1/start out of range} (thorough: every ordered pair of tampers for two orders) x continuation {Transition on the same endpoint, resume on a new endpoint of the same session with a correct re-delivery}; plus MaximumStagingFileSize around the big file's size; plus the local-copy leg (a root file with the wanted digest is changed / truncated / extended / deleted / replaced by a directory between Scan and Stage) x {complete delivery, nothing delivered}; non-trivial = delivery reached the first tampered message; distinct by the whole case")
 	r.Assume("digests are SHA-1 (session default); collisions are not modelled",
 		"the staging area itself is not edited behind the endpoint's back",
 		"a planned path that is not written must have the missing-files flag set and a problem naming it; a path left with its previous content counts as not written")
